@@ -13,6 +13,7 @@ import (
 	"net/http"
 	"net/http/httptest"
 	"net/http/httputil"
+	"net"
 	"net/url"
 	"net/textproto"
 	"os"
@@ -26,7 +27,10 @@ import (
 	"syscall"
 	"time"
 
+	"github.com/fabiolb/fabio/config"
+	"github.com/fabiolb/fabio/proxy"
 	fgzip "github.com/fabiolb/fabio/proxy/gzip"
+	"github.com/fabiolb/fabio/route"
 
 	"verifharness/internal/vh"
 )
@@ -59,6 +63,7 @@ type script struct {
 	Re     *regexp.Regexp
 	Ops    []hop
 	Dirty  int // 0: leave the pool alone; 1..3: seed it with a used writer first
+	Abort  bool // the inner handler ends with panic(http.ErrAbortHandler) after its ops
 }
 
 type infoResp struct {
@@ -67,37 +72,75 @@ type infoResp struct {
 }
 
 type obs struct {
-	Panicked bool
-	PanicVal string
+	Panicked   bool // a panic that is not the inner handler's own ErrAbortHandler
+	Propagated bool // the inner handler's ErrAbortHandler came out of ServeHTTP
+	PanicVal   string
 	Code     int
 	Hdr      http.Header
 	Info     []infoResp
 	Body     []byte
 }
 
-// srvWriter is the underlying http.ResponseWriter of the scripted runs: an
-// httptest.ResponseRecorder behind net/http's rule for informational status
-// codes (server.go: a 1xx WriteHeader before the final one is sent at once with
-// the current header map and does not finalise the response; the recorder alone
-// would take it for the final status).
+// srvWriter is the underlying http.ResponseWriter of the scripted runs.  It follows
+// net/http's server (server.go): a 1xx WriteHeader before the final one is sent at
+// once with the current header map and finalises nothing; the final WriteHeader or
+// the first Write snapshots the header map (implicit 200); when the response is
+// finished the server's sniffing rule applies to the snapshot: no Content-Type key,
+// no Transfer-Encoding, no non-empty Content-Encoding, non-empty body ->
+// Content-Type = DetectContentType(start of the body).  The end-to-end classes run
+// the same scripts behind a real net/http server and compare.
 type srvWriter struct {
-	rec   *httptest.ResponseRecorder
+	hdr   http.Header
 	wrote bool
+	code  int
+	snap  http.Header
+	body  bytes.Buffer
 	info  []infoResp
 }
 
-func (w *srvWriter) Header() http.Header { return w.rec.Header() }
+func newSrvWriter(h0 map[string][]string) *srvWriter {
+	w := &srvWriter{hdr: http.Header{}, code: 200}
+	for k, vs := range h0 {
+		w.hdr[k] = append([]string(nil), vs...)
+	}
+	return w
+}
+
+func (w *srvWriter) Header() http.Header { return w.hdr }
 func (w *srvWriter) WriteHeader(code int) {
-	if !w.wrote && code >= 100 && code <= 199 && code != 101 {
-		w.info = append(w.info, infoResp{code, w.rec.Header().Clone()})
+	if w.wrote {
 		return
 	}
-	w.wrote = true
-	w.rec.WriteHeader(code)
+	if code < 100 || code > 999 {
+		panic(fmt.Sprintf("invalid WriteHeader code %v", code))
+	}
+	if code >= 100 && code <= 199 && code != 101 {
+		w.info = append(w.info, infoResp{code, w.hdr.Clone()})
+		return
+	}
+	w.wrote, w.code, w.snap = true, code, w.hdr.Clone()
 }
 func (w *srvWriter) Write(b []byte) (int, error) {
-	w.wrote = true
-	return w.rec.Write(b)
+	if !w.wrote {
+		w.WriteHeader(200)
+	}
+	return w.body.Write(b)
+}
+
+// finish returns the headers the client gets.
+func (w *srvWriter) finish() http.Header {
+	h := w.snap
+	if !w.wrote {
+		h = w.hdr.Clone()
+	}
+	if h == nil {
+		h = http.Header{}
+	}
+	_, haveType := h["Content-Type"]
+	if !haveType && h.Get("Transfer-Encoding") == "" && h.Get("Content-Encoding") == "" && w.body.Len() > 0 {
+		h.Set("Content-Type", http.DetectContentType(w.body.Bytes()))
+	}
+	return h
 }
 
 var regexps = []*regexp.Regexp{
@@ -370,6 +413,7 @@ func randScript(r *rand.Rand, class string, maxBody int) *script {
 	if r.Intn(10) == 0 {
 		s.Ops = append(s.Ops, randHeaderOp(r, len(body)))
 	}
+	s.Abort = r.Intn(15) == 0 // the inner handler dies with ErrAbortHandler after its calls
 	return s
 }
 
@@ -390,19 +434,8 @@ func seedPool(kind int) {
 	fgzip.VerifPoolPut(w)
 }
 
-func execute(s *script) obs {
-	rec := httptest.NewRecorder()
-	for k, vs := range s.H0 {
-		rec.Header()[k] = append([]string(nil), vs...)
-	}
-	req := httptest.NewRequest("GET", "http://example.com/x", nil)
-	for _, v := range s.Accept {
-		req.Header.Add("Accept", v)
-	}
-	for _, v := range s.AE {
-		req.Header.Add("Accept-Encoding", v)
-	}
-	inner := http.HandlerFunc(func(w http.ResponseWriter, _ *http.Request) {
+func innerHandler(s *script) http.Handler {
+	return http.HandlerFunc(func(w http.ResponseWriter, _ *http.Request) {
 		for _, o := range s.Ops {
 			for i := 0; i < o.Yield; i++ {
 				runtime.Gosched()
@@ -425,21 +458,45 @@ func execute(s *script) obs {
 				}
 			}
 		}
+		if s.Abort {
+			panic(http.ErrAbortHandler)
+		}
 	})
-	h := fgzip.NewGzipHandler(inner, s.Re)
+}
+
+func scriptRequest(s *script, target string) *http.Request {
+	req := httptest.NewRequest("GET", target, nil)
+	for _, v := range s.Accept {
+		req.Header.Add("Accept", v)
+	}
+	for _, v := range s.AE {
+		req.Header.Add("Accept-Encoding", v)
+	}
+	return req
+}
+
+// serveOn runs h on a fresh srvWriter and collects what the client would get.
+func serveOn(s *script, h http.Handler) obs {
+	var o obs
+	sw := newSrvWriter(s.H0)
+	p, v := vh.Recover(func() { h.ServeHTTP(sw, scriptRequest(s, "http://example.com/x")) })
+	if p {
+		if v == http.ErrAbortHandler && s.Abort {
+			o.Propagated = true
+		} else {
+			o.Panicked, o.PanicVal = true, fmt.Sprint(v)
+		}
+	}
+	o.Code, o.Hdr, o.Body, o.Info = sw.code, sw.finish(), append([]byte(nil), sw.body.Bytes()...), sw.info
+	return o
+}
+
+func execute(s *script) obs {
+	h := fgzip.NewGzipHandler(innerHandler(s), s.Re)
 	if s.Dirty > 0 {
 		seedPool(s.Dirty)
 	}
-	var o obs
-	sw := &srvWriter{rec: rec}
-	p, v := vh.Recover(func() { h.ServeHTTP(sw, req) })
-	o.Panicked = p
-	if p {
-		o.PanicVal = fmt.Sprint(v)
-	}
-	res := rec.Result()
-	o.Code, o.Hdr, o.Body, o.Info = res.StatusCode, res.Header, rec.Body.Bytes(), sw.info
-	return o
+	return serveOn(s, h)
 }
 
 // ---------- rendering ----------
@@ -527,12 +584,26 @@ func emit(run *vh.Run, s *script, o obs) {
 	for _, v := range s.H0["Content-Type"] {
 		ctSet[v] = true
 	}
-	sniffTbl := "[]"
+	// http.DetectContentType at the two points where it is asked: the first chunk (the handler)
+	// and the start of the whole body (net/http's server when the response is finished)
+	var sniffItems []string
 	if nWrites > 0 {
 		st := http.DetectContentType(firstWrite)
 		ctSet[st] = true
-		sniffTbl = vh.List([]string{vh.Pair(firstTerm, vh.HxS(st))})
+		sniffItems = append(sniffItems, vh.Pair(firstTerm, vh.HxS(st)))
 	}
+	if len(all) > 0 {
+		st := http.DetectContentType(all)
+		ctSet[st] = true
+		allTerm := vh.Hx(all)
+		if tokenised {
+			allTerm = tokens(allTok)
+		}
+		if allTerm != firstTerm {
+			sniffItems = append(sniffItems, vh.Pair(allTerm, vh.HxS(st)))
+		}
+	}
+	sniffTbl := vh.List(sniffItems)
 	ctSet[o.Hdr.Get("Content-Type")] = true
 	cts := make([]string, 0, len(ctSet))
 	for k := range ctSet {
@@ -567,9 +638,9 @@ func emit(run *vh.Run, s *script, o obs) {
 		infos[i] = vh.Pair(vh.N(in.Code), coqHdr(in.Hdr))
 		infoCodesSeen[i] = in.Code
 	}
-	term := vh.App("Case", coqHdr(s.H0), coqStrs(s.Accept), coqStrs(s.AE), vh.List(ops),
+	term := vh.App("Case", coqHdr(s.H0), coqStrs(s.Accept), coqStrs(s.AE), vh.List(ops), vh.Bool(s.Abort),
 		vh.List(ctItems), sniffTbl,
-		vh.Bool(o.Panicked), vh.N(o.Code), coqHdr(o.Hdr), vh.List(infos), render(o.Body), gun)
+		vh.Bool(o.Panicked), vh.Bool(o.Propagated), vh.N(o.Code), coqHdr(o.Hdr), vh.List(infos), render(o.Body), gun)
 	kinds := make([]string, len(s.Ops))
 	for i, op := range s.Ops {
 		switch op.Kind {
@@ -587,7 +658,7 @@ func emit(run *vh.Run, s *script, o obs) {
 		kinds = append(kinds[:12], fmt.Sprintf("... %d more", len(kinds)-12))
 	}
 	sample := map[string]interface{}{"accept": s.Accept, "accept_encoding": s.AE, "regexp": s.Re.String(), "h0": s.H0,
-		"ops": kinds, "written": len(all), "tokenised": tokenised, "pool_seed": s.Dirty,
+		"ops": kinds, "abort": s.Abort, "propagated": o.Propagated, "written": len(all), "tokenised": tokenised, "pool_seed": s.Dirty,
 		"status": o.Code, "informational": infoCodesSeen, "resp_header": o.Hdr, "body_len": len(o.Body), "body_is_gzip": isGz, "panic": o.PanicVal}
 	id := run.Add(s.Class, term, sample)
 	if o.Panicked {
@@ -735,8 +806,273 @@ func runE2E(run *vh.Run) {
 			}
 		}
 	}
-	run.Notes["extra_evaluations"] = n
+	n2, n3, n4, n5 := runE2EScripts(run), runE2EAbort(run), runE2EBodyless(run), runE2EProxy(run)
+	run.Notes["extra_evaluations"] = n + n2 + n3 + n4 + n5
 	run.Notes["e2e_real_server_responses"] = n
+	run.Notes["e2e_scripts_real_server_vs_underlying_writer"] = n2
+	run.Notes["e2e_aborted_responses"] = n3
+	run.Notes["e2e_bodyless_responses"] = n4
+	run.Notes["e2e_through_HTTPProxy_ServeHTTP"] = n5
+}
+
+// ---------- end to end: the scripted inner handlers behind a real net/http server ----------
+type clientView struct {
+	Status          int
+	CT, CE, Vary    []string
+	CL              string
+	Body            []byte
+	DoErr, ReadErr  string
+}
+
+func clientGet(h http.Handler, s *script, method string) clientView {
+	srv := httptest.NewServer(h)
+	defer srv.Close()
+	req, _ := http.NewRequest(method, srv.URL+"/x", nil)
+	for _, v := range s.Accept {
+		req.Header.Add("Accept", v)
+	}
+	for _, v := range s.AE {
+		req.Header.Add("Accept-Encoding", v)
+	}
+	cl := &http.Client{Transport: &http.Transport{DisableCompression: true, DisableKeepAlives: true}, Timeout: 10 * time.Second}
+	resp, err := cl.Do(req)
+	if err != nil {
+		return clientView{DoErr: "error"}
+	}
+	defer resp.Body.Close()
+	b, rerr := io.ReadAll(resp.Body)
+	v := clientView{Status: resp.StatusCode, CT: resp.Header.Values("Content-Type"), CE: resp.Header.Values("Content-Encoding"),
+		Vary: resp.Header.Values("Vary"), CL: resp.Header.Get("Content-Length"), Body: b}
+	if rerr != nil {
+		v.ReadErr = "error"
+	}
+	return v
+}
+
+func sameStrs(a, b []string) bool {
+	if len(a) != len(b) {
+		return false
+	}
+	for i := range a {
+		if a[i] != b[i] {
+			return false
+		}
+	}
+	return true
+}
+
+// agrees: the model's underlying writer (srvWriter) predicts what a client of the real server sees
+func agrees(real clientView, o obs) string {
+	switch {
+	case real.DoErr != "" || real.ReadErr != "":
+		return "client error"
+	case real.Status != o.Code:
+		return fmt.Sprintf("status %d vs %d", real.Status, o.Code)
+	case !sameStrs(real.CT, o.Hdr.Values("Content-Type")):
+		return fmt.Sprintf("Content-Type %q vs %q", real.CT, o.Hdr.Values("Content-Type"))
+	case !sameStrs(real.CE, o.Hdr.Values("Content-Encoding")):
+		return fmt.Sprintf("Content-Encoding %q vs %q", real.CE, o.Hdr.Values("Content-Encoding"))
+	case !sameStrs(real.Vary, o.Hdr.Values("Vary")):
+		return fmt.Sprintf("Vary %q vs %q", real.Vary, o.Hdr.Values("Vary"))
+	case !bytes.Equal(real.Body, o.Body):
+		return fmt.Sprintf("body %d vs %d bytes", len(real.Body), len(o.Body))
+	}
+	return ""
+}
+
+// runE2EScripts: sniffing-relevant scripts (no Content-Type; encoded or not; short first chunk) run four
+// ways: real server with / without the gzip handler, srvWriter with / without.  The srvWriter runs are
+// what the Coq cases are made of; a disagreement with the real server means the underlying-writer model
+// (net/http's sniffing rule) is wrong.
+func runE2EScripts(run *vh.Run) int {
+	r := run.Rng
+	n := 0
+	first := [][]byte{[]byte("<"), []byte("<html><body>"), []byte("{"), {0x1b, 3, 0, 0xf8}, []byte("plain"), {}}
+	for _, ce := range []string{"-", "br", "", "gzip"} {
+		for fi, f := range first {
+			for _, re := range []*regexp.Regexp{regexps[1], regexps[2], regexp.MustCompile(`^image/`)} {
+				for _, ae := range [][]string{{"gzip"}, nil} {
+					s := &script{Class: "e2e", Re: re, AE: ae, H0: map[string][]string{}}
+					if ce != "-" {
+						s.Ops = append(s.Ops, hop{Kind: "set", Key: "Content-Encoding", Val: ce})
+					}
+					switch r.Intn(4) {
+					case 0:
+						s.Ops = append(s.Ops, hop{Kind: "wh", Code: []int{200, 404}[r.Intn(2)]})
+					case 1:
+						s.Ops = append(s.Ops, hop{Kind: "set", Key: "Content-Type", Val: []string{"text/html", "image/png"}[r.Intn(2)]})
+					}
+					s.Ops = append(s.Ops, hop{Kind: "write", Data: f}, hop{Kind: "write", Data: []byte("html><body>" + strings.Repeat("row ", 10+fi) + "</body></html>")})
+					inner := innerHandler(s)
+					wrapped := fgzip.NewGzipHandler(inner, re)
+					for _, pair := range []struct {
+						name string
+						h    http.Handler
+					}{{"without the gzip handler", inner}, {"with the gzip handler", wrapped}} {
+						n++
+						if d := agrees(clientGet(pair.h, s, "GET"), serveOn(s, pair.h)); d != "" {
+							run.Violation(-1, "the underlying-writer model differs from net/http's server "+pair.name+": "+d,
+								map[string]interface{}{"content_encoding": ce, "first_chunk": string(f), "regexp": re.String(), "accept_encoding": ae, "ops": len(s.Ops)})
+						}
+					}
+				}
+			}
+		}
+	}
+	return n
+}
+
+// runE2EAbort: the response is cut short -- the inner handler panics with ErrAbortHandler mid-body, or the
+// backend behind httputil.ReverseProxy closes the connection mid-body.  The deferred Close writes a
+// complete gzip trailer over the truncated data; the client must still be able to tell (transport error),
+// exactly as without the gzip handler.
+func runE2EAbort(run *vh.Run) int {
+	n := 0
+	body := []byte(strings.Repeat("<p>row of the table</p>\n", 400))
+	// (a) scripted inner handler
+	for _, cut := range []int{0, 1, 3} {
+		for _, ae := range [][]string{{"gzip"}, nil} {
+			s := &script{Class: "e2e-abort", Re: regexps[1], AE: ae, H0: map[string][]string{}, Abort: true}
+			s.Ops = append(s.Ops, hop{Kind: "set", Key: "Content-Type", Val: "text/html"})
+			for i := 0; i < cut; i++ {
+				s.Ops = append(s.Ops, hop{Kind: "write", Data: body[i*3000 : (i+1)*3000]})
+			}
+			n++
+			v := clientGet(fgzip.NewGzipHandler(innerHandler(s), s.Re), s, "GET")
+			if v.DoErr == "" && v.ReadErr == "" {
+				run.Violation(-1, "aborted response reaches the client as a complete one (inner handler panicked with ErrAbortHandler)",
+					map[string]interface{}{"chunks_before_abort": cut, "accept_encoding": ae, "status": v.Status, "body_len": len(v.Body), "content_encoding": v.CE})
+			}
+		}
+	}
+	// (b) backend dies mid-body behind httputil.ReverseProxy
+	ln, err := net.Listen("tcp", "127.0.0.1:0")
+	if err != nil {
+		run.Exclude("no loopback listener for the dying backend")
+		return n
+	}
+	defer ln.Close()
+	go func() {
+		for {
+			c, err := ln.Accept()
+			if err != nil {
+				return
+			}
+			go func(c net.Conn) {
+				buf := make([]byte, 4096)
+				c.Read(buf)
+				fmt.Fprintf(c, "HTTP/1.1 200 OK\r\nContent-Type: text/html\r\nContent-Length: %d\r\n\r\n", len(body))
+				c.Write(body[:len(body)/3])
+				c.Close()
+			}(c)
+		}
+	}()
+	u, _ := url.Parse("http://" + ln.Addr().String())
+	for _, ae := range [][]string{{"gzip"}, nil} {
+		rp := &httputil.ReverseProxy{Director: func(r *http.Request) { r.URL.Scheme, r.URL.Host = u.Scheme, u.Host }, ErrorLog: nil}
+		s := &script{AE: ae}
+		n++
+		v := clientGet(fgzip.NewGzipHandler(rp, regexps[1]), s, "GET")
+		if v.DoErr == "" && v.ReadErr == "" {
+			run.Violation(-1, "aborted response reaches the client as a complete one (backend closed the connection mid-body behind ReverseProxy)",
+				map[string]interface{}{"accept_encoding": ae, "status": v.Status, "body_len": len(v.Body), "content_encoding": v.CE})
+		}
+	}
+	return n
+}
+
+// runE2EBodyless: HEAD requests and 204 / 304 responses with a matching content type behind the real
+// server (Write fails with ErrBodyNotAllowed there).  Required: same status as without the handler, no
+// body, no client error.  Header differences on these body-less responses are counted in the notes.
+func runE2EBodyless(run *vh.Run) int {
+	n := 0
+	labelled, headCL := 0, 0
+	for _, kind := range []string{"HEAD", "HEAD-cl", "204", "304"} {
+		for _, ae := range [][]string{{"gzip"}, nil} {
+			s := &script{Class: "e2e-bodyless", Re: regexps[1], AE: ae, H0: map[string][]string{}}
+			s.Ops = append(s.Ops, hop{Kind: "set", Key: "Content-Type", Val: "text/html"}, hop{Kind: "set", Key: "Etag", Val: "\"x\""})
+			method := "GET"
+			switch kind {
+			case "HEAD":
+				method = "HEAD"
+				s.Ops = append(s.Ops, hop{Kind: "wh", Code: 200})
+			case "HEAD-cl":
+				method = "HEAD"
+				s.Ops = append(s.Ops, hop{Kind: "set", Key: "Content-Length", Val: "500"}, hop{Kind: "wh", Code: 200})
+			case "204":
+				s.Ops = append(s.Ops, hop{Kind: "wh", Code: 204})
+			case "304":
+				s.Ops = append(s.Ops, hop{Kind: "wh", Code: 304})
+			}
+			inner := innerHandler(s)
+			bare := clientGet(inner, s, method)
+			got := clientGet(fgzip.NewGzipHandler(inner, s.Re), s, method)
+			n += 2
+			if got.DoErr != "" || got.ReadErr != "" || got.Status != bare.Status || len(got.Body) != 0 {
+				run.Violation(-1, "body-less response (HEAD / 204 / 304) through the gzip handler: status changed, a body appeared or the client failed",
+					map[string]interface{}{"kind": kind, "accept_encoding": ae, "status": got.Status, "status_without": bare.Status, "body_len": len(got.Body)})
+			}
+			if !sameStrs(got.CE, bare.CE) {
+				labelled++
+			}
+			if method == "HEAD" && got.CL != bare.CL {
+				headCL++
+			}
+		}
+	}
+	run.Notes["bodyless_responses_labelled_gzip"] = labelled
+	run.Notes["head_responses_with_other_content_length"] = headCL
+	return n
+}
+
+// runE2EProxy: the wiring in proxy.HTTPProxy.ServeHTTP (http_proxy.go: "if p.Config.GZIPContentTypes != nil
+// { h = gzip.NewGzipHandler(h, ...) }", underneath proxy.responseWriter): compression happens exactly when
+// it is configured, the client accepts it and the type matches; the body round-trips in every case.
+func runE2EProxy(run *vh.Run) int {
+	r := run.Rng
+	n := 0
+	for _, re := range []*regexp.Regexp{nil, regexps[0], regexps[1]} {
+		for _, ae := range []string{"gzip", "", "gzip;q=0"} {
+			for _, ct := range []string{"text/html", "image/png"} {
+				body := makeBody(r, 1, 200+r.Intn(3000))
+				backend := httptest.NewServer(http.HandlerFunc(func(w http.ResponseWriter, _ *http.Request) {
+					w.Header().Set("Content-Type", ct)
+					w.Header().Set("Content-Length", strconv.Itoa(len(body)))
+					w.WriteHeader(203)
+					w.Write(body)
+				}))
+				u, _ := url.Parse(backend.URL)
+				tgt := &route.Target{URL: u}
+				p := &proxy.HTTPProxy{Config: config.Proxy{GZIPContentTypes: re}, Transport: &http.Transport{DisableCompression: true},
+					UUID: func() string { return "c17" }, Lookup: func(*http.Request) *route.Target { return tgt }}
+				s := &script{}
+				if ae != "" {
+					s.AE = []string{ae}
+				}
+				v := clientGet(p, s, "GET")
+				backend.Close()
+				n++
+				got := v.Body
+				isGz := sameStrs(v.CE, []string{"gzip"})
+				if isGz {
+					if d, ok := gunzip(v.Body); ok {
+						got = d
+					}
+				}
+				want := re != nil && ae == "gzip" && re.MatchString(ct)
+				if v.DoErr != "" || v.ReadErr != "" || v.Status != 203 || !bytes.Equal(got, body) || isGz != want || (!want && len(v.CE) != 0) ||
+					(want && v.CL != "" && v.CL != strconv.Itoa(len(v.Body))) || (!want && v.CL != strconv.Itoa(len(body))) {
+					reS := "nil"
+					if re != nil {
+						reS = re.String()
+					}
+					run.Violation(-1, "through proxy.HTTPProxy.ServeHTTP: compression is not exactly 'configured, accepted and matching', or the body does not round-trip",
+						map[string]interface{}{"gzip_content_types": reS, "accept_encoding": ae, "content_type": ct, "status": v.Status, "content_encoding": v.CE, "content_length": v.CL, "body_len": len(v.Body), "want_gzip": want})
+				}
+			}
+		}
+	}
+	return n
 }
 
 func main() {
@@ -921,10 +1257,63 @@ func main() {
 		if r.Intn(8) == 0 {
 			s.Ops = append(s.Ops, hop{Kind: "set", Key: "Content-Length", Val: "40"})
 		}
+		switch r.Intn(6) { // net/http does not sniff an encoded body: does the handler add a type of its own?
+		case 0:
+			s.Ops = append(s.Ops, hop{Kind: "set", Key: "Content-Encoding", Val: "br"})
+		case 1:
+			s.Ops = append(s.Ops, hop{Kind: "set", Key: "Content-Encoding", Val: encodings[r.Intn(len(encodings))]})
+		}
 		if r.Intn(6) == 0 {
 			s.Ops = append(s.Ops, hop{Kind: "wh", Code: 200})
 		}
 		s.Ops = append(s.Ops, hop{Kind: "write", Data: firsts[i%len(firsts)]}, hop{Kind: "write", Data: makeBody(r, 1, r.Intn(60))})
+		do(s)
+	}
+
+	// 5b. several Content-Encoding values, empty ones first / last / only ("already encoded" must look at all of them)
+	ceLists := [][]string{{"", "br"}, {"", ""}, {"br", ""}, {"", "gzip"}, {"", "", "deflate"}, {"identity", "br"}, {""}, {"br"}}
+	for i := 0; i < run.Scale(64, 640); i++ {
+		s := &script{Class: "content-encoding-values", Re: regexps[[]int{0, 1, 2}[r.Intn(3)]], AE: [][]string{{"gzip"}, {"gzip"}, nil}[r.Intn(3)], H0: map[string][]string{}}
+		l := ceLists[i%len(ceLists)]
+		if i%3 == 0 {
+			s.H0["Content-Encoding"] = l
+		} else {
+			for _, v := range l {
+				s.Ops = append(s.Ops, hop{Kind: "add", Key: "Content-Encoding", Val: v})
+			}
+		}
+		s.Ops = append(s.Ops, hop{Kind: "set", Key: "Content-Type", Val: []string{"text/html", "image/png"}[r.Intn(2)]})
+		if r.Intn(2) == 0 {
+			s.Ops = append(s.Ops, hop{Kind: "wh", Code: 200})
+		}
+		for _, c := range chunks(r, makeBody(r, 3, 20+r.Intn(100))) {
+			s.Ops = append(s.Ops, hop{Kind: "write", Data: c})
+		}
+		do(s)
+	}
+
+	// 5c. the inner handler dies (panic(http.ErrAbortHandler), what httputil.ReverseProxy does when the backend
+	//     dies mid-body): before anything, after the headers, after the header call, mid-body
+	for i := 0; i < run.Scale(80, 800); i++ {
+		s := &script{Class: "abort", Re: regexps[[]int{0, 1, 2}[r.Intn(3)]], AE: [][]string{{"gzip"}, {"gzip"}, nil}[r.Intn(3)], H0: randH0(r), Abort: true}
+		body := makeBody(r, r.Intn(3), 50+r.Intn(300))
+		stage := i % 5
+		if stage >= 1 {
+			s.Ops = append(s.Ops, hop{Kind: "set", Key: "Content-Type", Val: []string{"text/html", "image/png", "text/plain"}[r.Intn(3)]},
+				hop{Kind: "set", Key: "Content-Length", Val: strconv.Itoa(len(body))})
+		}
+		if stage >= 2 && r.Intn(2) == 0 {
+			s.Ops = append(s.Ops, hop{Kind: "wh", Code: []int{200, 206, 500}[r.Intn(3)]})
+		}
+		if stage >= 3 {
+			cs := chunks(r, body)
+			if stage == 3 && len(cs) > 1 {
+				cs = cs[:1+r.Intn(len(cs)-1)] // a strict prefix of the body
+			}
+			for _, c := range cs {
+				s.Ops = append(s.Ops, hop{Kind: "write", Data: c})
+			}
+		}
 		do(s)
 	}
 
